@@ -14,7 +14,7 @@ import (
 // C15 - the parser accepts exactly the language and builds the prescribed tree.
 
 var c15Full = []string{"a", "b.c", "not", "and", "or", "in", "is", "empty", "contains", "matches", "any", "all", "as", "_",
-	"0", "1", "-1", "1.5", "01", `"s"`, "`s`", `"/p"`, `""`, `"\q"`, "\"a\nb\"", "`a\rb`", "(", ")", "{", "}", "[", "]", ".", ",", "==", "!="}
+	"0", "1", "-1", "1.5", "01", `"s"`, "`s`", `"/p"`, `""`, `"\q"`, "\"a\nb\"", "`a\rb`", "\"\ufffd\"", "(", ")", "{", "}", "[", "]", ".", ",", "==", "!="}
 var c15Mid = []string{"a", "b.c", "not", "and", "or", "in", "is", "empty", "contains", "any", "as", "_", "1", `"s"`, `"/p"`, "(", ")", "{", "}", "=="}
 var c15Small = []string{"a", "not", "and", "or", "in", "is", "empty", "any", "as", "1", `"s"`, "(", ")", "{", "}", "=="}
 
@@ -211,7 +211,7 @@ func c15Tokenize(s string) []string {
 	return toks
 }
 
-var c15Inserts = []string{"(", ")", "{", "}", "[", "]", ".", ",", "not", "and", "or", "in", "is", "empty", "any", "as", "_", "==", "!=", "1", "01", "-", `"`, "`", " ", "x", `"/p"`, `"\z"`, "contains", "matches", "\xff", "é", "1.", "0x1", "\v", "\f", "\u00a0", "\u2028", "\u0085"}
+var c15Inserts = []string{"(", ")", "{", "}", "[", "]", ".", ",", "not", "and", "or", "in", "is", "empty", "any", "as", "_", "==", "!=", "1", "01", "-", `"`, "`", " ", "x", `"/p"`, `"\z"`, "contains", "matches", "\xff", "é", "1.", "0x1", "\v", "\f", "\u00a0", "\u2028", "\u0085", "\ufffd", "[\"a.b\"]", "[`x y`]"}
 
 func c15Mutate(r *rand.Rand, s string) string {
 	toks := c15Tokenize(s)
@@ -257,7 +257,7 @@ func c15Mutate(r *rand.Rand, s string) string {
 	}
 	out := strings.Join(toks, "")
 	if r.Intn(12) == 0 {
-		pad := []string{"\v", "\f", "\u00a0", "\u2028", "\u0085", "\u3000", "\x00"}[r.Intn(7)]
+		pad := []string{"\v", "\f", "\u00a0", "\u2028", "\u0085", "\u3000", "\x00", "\ufeff", "\ufeff\ufeff"}[r.Intn(9)]
 		if r.Intn(2) == 0 {
 			out = pad + out
 		} else {
